@@ -525,6 +525,43 @@ def kem_derive_public_key(suite, ikm):
     return None
 
 
+def _hpke_labeled_extract(suite_id, salt, label, ikm):
+    return _hkdf_extract("sha256", salt, b"HPKE-v1" + suite_id + label + ikm)
+
+
+def _hpke_labeled_expand(suite_id, prk, label, info, length):
+    return _hkdf_expand("sha256", prk, struct.pack(">H", length) + b"HPKE-v1" + suite_id + label + info, length)
+
+
+def hpke_base_export_x25519(suite, sk_r, pk_r, enc, info, exporter_context, length):
+    """SetupBaseR(enc, skR, info).Export(exporter_context, L) for DHKEM(X25519, HKDF-SHA256) with
+    HKDF-SHA256 (RFC 9180 sections 4.1, 5.1, 5.3); suites 1 and 3 of RFC 9420. Independent of the
+    library: Montgomery ladder and HMAC only."""
+    aead_id = {1: 0x0001, 3: 0x0003}[suite]
+    kem_suite = b"KEM" + struct.pack(">H", 0x0020)
+    dh = x25519(sk_r, enc)
+    kem_context = enc + pk_r
+    eae_prk = _hpke_labeled_extract(kem_suite, b"", b"eae_prk", dh)
+    shared_secret = _hpke_labeled_expand(kem_suite, eae_prk, b"shared_secret", kem_context, 32)
+    hpke_suite = b"HPKE" + struct.pack(">HHH", 0x0020, 0x0001, aead_id)
+    psk_id_hash = _hpke_labeled_extract(hpke_suite, b"", b"psk_id_hash", b"")
+    info_hash = _hpke_labeled_extract(hpke_suite, b"", b"info_hash", info)
+    ks_context = b"\x00" + psk_id_hash + info_hash
+    secret = _hpke_labeled_extract(hpke_suite, shared_secret, b"secret", b"")
+    exporter_secret = _hpke_labeled_expand(hpke_suite, secret, b"exp", ks_context, 32)
+    return _hpke_labeled_expand(hpke_suite, exporter_secret, b"sec", exporter_context, length)
+
+
+def external_init_secret(suite, external_secret, kem_output):
+    """init_secret of an external commit as the members compute it (RFC 9420 section 8.3):
+    SetupBaseR(kem_output, DeriveKeyPair(external_secret), "").Export("MLS 1.0 external init secret", Nh).
+    None for suites whose KEM is not X25519."""
+    if suite not in (1, 3):
+        return None
+    sk, pk = kem_derive_key_pair_x25519(external_secret)
+    return hpke_base_export_x25519(suite, sk, pk, kem_output, b"", b"MLS 1.0 external init secret", nh(suite))
+
+
 # ---------------------------------------------------------------------------
 # self-test against /repo/mls-rs/test_data
 # ---------------------------------------------------------------------------
